@@ -106,7 +106,6 @@ structure DP (p : Par) : Prop where
   x : p.x = none
   w : p.w = false
   sb : p.sb = .connected
-  pb : p.pb = .opened
   rb : p.rb = true
   rpb : p.rpb = true
 
@@ -164,7 +163,7 @@ theorem Inv.runHandler (h : Inv jid U NR p c) (dp : DP p) (hd : Handler) (xs : B
         h.repar _ rfl rfl rfl rfl (Or.inr rfl) rfl rfl (fun a => by rw [hraw] at a; cases a)
           (fun a => by rw [hrp] at a; cases a)
       have pcE : PC ({ p with rb := false, rpb := false } : Par) :=
-        ⟨rfl, by show p.pb ≠ .fresh; rw [dp.pb]; simp, dp.sb, rfl⟩
+        ⟨rfl, by show p.pb ≠ .fresh; rw [← h.f.ps]; exact hps, dp.sb, rfl⟩
       have hs' : (xs = true → (hd.uid, HFun.sys K, hd.user) ∈ c.handlers.map hkey) ∧
           (xs = false → (hd.uid, HFun.sys K, hd.user) ∈ c.idHandlers.map hkey) := by
         refine ⟨fun e => ?_, fun e => ?_⟩
@@ -291,13 +290,13 @@ def fsId (c : Conn) (st : XTree) : Conn :=
 
 theorem fireStanza_eq (c : Conn) (st : XTree) :
     fireStanza c st =
-      (let c1 := fsId c st
-       let c2 : Conn := { c1 with handlers := c1.handlers.map fun (h : Handler) => { h with enabled := true } }
-       (c2.handlers.map (·.uid)).foldl (fireOne st) c2) := rfl
+      (let cE : Conn := { c with handlers := c.handlers.map fun (h : Handler) => { h with enabled := true } }
+       let c1 := fsId cE st
+       (c1.handlers.map (·.uid)).foldl (fireOne st) c1) := rfl
 
 theorem Inv.fsId (h : Inv jid U NR p c) (dp : DP p) (hl : c.state ≠ .disconnected) (st : XTree) :
     ∃ m, Inv jid U NR { p with mb := m } (ConnC03.fsId c st) ∧ (ConnC03.fsId c st).state = c.state := by
-  have dpm : ∀ m, DP ({ p with mb := m } : Par) := fun _ => ⟨dp.x, dp.w, dp.sb, dp.pb, dp.rb, dp.rpb⟩
+  have dpm : ∀ m, DP ({ p with mb := m } : Par) := fun _ => ⟨dp.x, dp.w, dp.sb, dp.rb, dp.rpb⟩
   unfold ConnC03.fsId
   cases st.attr (b "id") with
   | none => exact ⟨p.mb, h, rfl⟩
@@ -318,23 +317,59 @@ theorem Inv.fsId (h : Inv jid U NR p c) (dp : DP p) (hl : c.state ≠ .disconnec
 
 theorem Inv.fireStanza (h : Inv jid U NR p c) (dp : DP p) (hl : c.state ≠ .disconnected) (st : XTree) :
     Inv jid U NR { p with mb := 0 } (Conn.fireStanza c st) := by
-  have dpm : ∀ m, DP ({ p with mb := m } : Par) := fun _ => ⟨dp.x, dp.w, dp.sb, dp.pb, dp.rb, dp.rpb⟩
+  have dpm : ∀ m, DP ({ p with mb := m } : Par) := fun _ => ⟨dp.x, dp.w, dp.sb, dp.rb, dp.rpb⟩
   rw [fireStanza_eq]; dsimp only
-  obtain ⟨m, h1, hs1⟩ := h.fsId dp hl st
-  generalize ConnC03.fsId c st = c1 at h1 hs1
-  have hk : (c1.handlers.map fun (h : Handler) => ({ h with enabled := true } : Handler)).map hkey
-      = c1.handlers.map hkey := map_keys_eq _ _ (fun x => rfl)
-  have h2 : Inv jid U NR { p with mb := m } { c1 with handlers := c1.handlers.map fun (h : Handler) => { h with enabled := true } } := by
-    refine ⟨h1.cfg, h1.q, h1.e, h1.gg, ?_, h1.f, h1.ts⟩
-    show InvH _ _ _ _ _ _ _ _ _ _ _ _ ((c1.handlers.map _).map hkey) _ _ _ _
-    rw [hk]; exact h1.h
-  have h2' := h2.setMb (by show c1.state ≠ .disconnected; rw [hs1]; exact hl) c1.nextUid (Nat.le_refl _)
-  have h3 := Inv.regFold (dpm _) st
-    (({ c1 with handlers := c1.handlers.map fun (h : Handler) => { h with enabled := true } } : Conn).handlers.map (·.uid))
-    ?_ h2'
+  have hk : (c.handlers.map fun (h : Handler) => ({ h with enabled := true } : Handler)).map hkey
+      = c.handlers.map hkey := map_keys_eq _ _ (fun x => rfl)
+  have hE : Inv jid U NR p { c with handlers := c.handlers.map fun (h : Handler) => { h with enabled := true } } := by
+    refine ⟨h.cfg, h.q, h.e, h.gg, ?_, h.f, h.ts⟩
+    show InvH _ _ _ _ _ _ _ _ _ _ _ _ ((c.handlers.map _).map hkey) _ _ _ _
+    rw [hk]; exact h.h
+  obtain ⟨m, h1, hs1⟩ := hE.fsId dp hl st
+  generalize ConnC03.fsId { c with handlers := c.handlers.map fun (h : Handler) => { h with enabled := true } } st = c1 at h1 hs1
+  have h2' := h1.setMb (by rw [hs1]; exact hl) c1.nextUid (Nat.le_refl _)
+  have h3 := Inv.regFold (dpm _) st (c1.handlers.map (·.uid)) ?_ h2'
   · exact h3.zeroMb
   · intro u hu
     obtain ⟨hd, hm, rfl⟩ := List.mem_map.1 hu
-    exact h2.h.uidH _ (List.mem_append.2 (Or.inl (List.mem_map_of_mem (f := hkey) hm)))
+    exact h1.h.uidH _ (List.mem_append.2 (Or.inl (List.mem_map_of_mem (f := hkey) hm)))
+
+/-! ### stream management bookkeeping of inbound stanzas -/
+
+theorem Inv.smHandleStanza (h : Inv jid U NR p c) (st : XTree) : Inv jid U NR p (Conn.smHandleStanza c st) := by
+  have hel : Inv jid U NR p (Conn.smHandleStanza.smElement c st) := by
+    unfold Conn.smHandleStanza.smElement triggerSmCallback
+    split
+    · exact h
+    · split
+      · exact h.sendStanzaLib _ _ (by simp) (fun _ _ _ => trivial) (fun _ hh => by obtain ⟨_, _, _, e⟩ := hh; cases e)
+      · split
+        · split
+          · exact h
+          · dsimp only
+            exact ⟨h.cfg, { h.q with smq_ok := fun e a => h.q.smq_ok e ((List.dropWhile_sublist _).subset a) },
+              h.e, h.gg, h.h, h.f, h.ts⟩
+        · exact h
+  unfold Conn.smHandleStanza triggerSmCallback
+  split
+  · split
+    · exact ⟨h.cfg, h.q, h.e, h.gg, h.h, h.f, h.ts⟩
+    · exact hel
+  · exact hel
+
+theorem Inv.handleStreamStanza (h : Inv jid U NR p c) (dp : DP p) (st : XTree) :
+    Inv jid U NR { p with mb := 0 } (Conn.handleStreamStanza c st) := by
+  unfold Conn.handleStreamStanza
+  split
+  · exact h.zeroMb
+  · rename_i hl
+    have h1 := h.fireStanza dp hl st
+    have h2 : Inv jid U NR { p with mb := 0 }
+        { Conn.fireStanza c st with rxLog := (Conn.fireStanza c st).rxLog ++ rxMarks c st ++
+            [.stanza (countsInbound (Conn.fireStanza c st) st)] } :=
+      ⟨h1.cfg, h1.q, h1.e, h1.gg, h1.h, h1.f, h1.ts⟩
+    dsimp only; split
+    · exact h2.smHandleStanza st
+    · exact h2
 
 end Strophe.Lemmas.ConnC03
